@@ -8,8 +8,13 @@ case = (src, stages, action)
                                        function that yields the sum, 7 cache()
   action = (acode, a1, a2, a3)   see ACTIONS
 
-Every pipeline starts with a hidden stage 0, `mapPartitionsWithIndex(tagger)`, that turns the raw ints into
-`E` values (ints that remember the partition they came from) and logs the read.  Every library function is
+Elements are ints or one of the falsy / sentinel-like values None, '', False, (), [] ("specials").  In cases, logs
+and results a special is written as an int code > 100000 (NONE, STR, FALSE, TUP, LST below); the implementation
+sees the real Python objects.  The function library works on codes and is mirrored in coq/Run/C06_run.v.
+
+Every pipeline starts with a hidden stage 0, `mapPartitionsWithIndex(tagger)`, that turns the raw values into
+tagged values (int / str / tuple / list subclasses that remember the partition they came from; None and False
+cannot be subclassed and take the partition of the element the tagging stage yielded last) and logs the read.  Every library function is
 wrapped: the wrapper appends (stage, partition, k, value) to LOG, where k is the number of earlier calls of
 that stage function on elements of that partition (= the index of the element in that stage's input when each
 element is evaluated once, in order).  impl returns
@@ -29,21 +34,31 @@ ID = 'C06'
 KERNELS = []
 SHARD = 200
 RULE = ('cases (source, pipeline, action): source = parallelize(xs, n) with len 0..8 and n 1..6 (plus n > len), or explicit '
-        'partitions incl. empty ones; pipeline = hidden tagging stage + 0..4 stages drawn from map/filter/flatMap/sample/'
-        'persist/cache/mapPartitions(eager list function)/mapPartitionsWithIndex(generator) with library functions; action = '
-        'each of the 10 single-pass actions, take(n) for EVERY n in 0..len(output)+1, first(), isEmpty(); exhaustive block: '
-        'length <= 4, <= 3 slices, depth <= 2 over one representative per stage kind (sampled in the quick tier; the thorough '
-        'tier adds all depth-3 pipelines over the representatives on two multi-partition sources); '
-        'non-trivial = at least one logged user-function call and >= 1 pipeline stage; distinct by canonical JSON')
+        'partitions incl. empty ones; elements are ints (0 over-represented) and the falsy / sentinel-like values None, \'\', '
+        'False, (), [] -- in the data, RETURNED by map functions (for the value 0, for even values, always), yielded by '
+        'flatMap functions, kept / dropped by filter predicates (also predicates answering 1 / None instead of bool); '
+        'pipeline = hidden tagging stage + 0..4 stages drawn from map/filter/flatMap/sample/persist/cache/mapPartitions'
+        '(eager list function)/mapPartitionsWithIndex(generator) with library functions; action = each single-pass action '
+        'the output values admit (collect, count, fold, aggregate, foreach always; reduce unless None/False can come out; '
+        'sum, stats, countByValue, saveAsTextFile on int outputs), take(n) for EVERY n in 0..len(output)+1, first(), '
+        'isEmpty(); sentinel block: 15 sentinel stages x 11 sources placing the special at the head of the first partition / '
+        'a whole partition / every head / everywhere / in the data x 5 pipeline shapes x all admissible actions (sampled in '
+        'the quick tier, every one-stage isEmpty/first case kept); exhaustive block: length <= 4, <= 3 slices, depth <= 2 over '
+        'one representative per stage kind (sampled in the quick tier; the thorough tier adds all depth-3 pipelines over the '
+        'representatives on two multi-partition sources); non-trivial = at least one logged user-function call and >= 1 '
+        'pipeline stage; distinct by canonical JSON')
 ASSUMPTIONS = [
     'local execution (default DummyPool): partitions are evaluated one after the other by the driver',
     'user functions do not raise (no retries) and are observed through wrappers that log (stage, partition, call index, value)',
     'the sampler of sample() is replaced by a logged deterministic multiplicity function of the element (the random draw '
     'itself is C16); the generator in PartitionwiseSampledRDD.compute is the real one',
     'one action per freshly built lineage on a fresh Context (caches are empty: "uncached lineage")',
+    'integer element values stay below 100000 (codes above denote the special values); sum-like partition functions '
+    'are only applied to ints; reduce is not run on outputs containing None / False',
     'parallelize slicing is modelled locally (sizes (i+1)L/n - iL/n, remainder to the last slice); C07 owns that contract',
 ]
-TRUSTED = ['py/c06.py wrappers (logging, E(int) partition tags)', 'function library pairs py/c06.py <-> coq/Run/C06_run.v']
+TRUSTED = ['py/c06.py wrappers (logging; int/str/tuple/list subclasses as partition tags; None and False are attributed '
+           'to the partition of the tagged element seen last)', 'encoding of None, \'\', False, (), [] as codes 100001..100005', 'function library pairs py/c06.py <-> coq/Run/C06_run.v']
 
 MAP, FILTER, FLATMAP, SAMPLE, PERSIST, EAGER, GENSUM, CACHE = range(8)
 KIND_NAMES = ['map', 'filter', 'flatMap', 'sample', 'persist', 'mapPartitions', 'genSum', 'cache']
@@ -55,14 +70,14 @@ ACTIONS = ['collect', 'count', 'sum', 'reduce', 'fold', 'aggregate', 'foreach', 
            'saveAsTextFile', 'take', 'first', 'isEmpty']
 SINGLE_PASS = range(10)
 
-# ---- function library (value level; the Gallina twins are in coq/Run/C06_run.v) -------------------------------
-FN = [lambda x: x + 1, lambda x: 2 * x, lambda x: -x, lambda x: x % 7, lambda x: 0]
-PRED = [lambda x: x % 2 == 0, lambda x: x > 0, lambda x: True, lambda x: False, lambda x: x % 5 < 3]
-GFN = [lambda x: [x, x], lambda x: list(range(x % 4)), lambda x: [], lambda x: [x], lambda x: [x, x + 1]]
-MFN = [lambda x: 0, lambda x: 1, lambda x: x % 3, lambda x: 1 if x % 2 == 0 else 0, lambda x: 2]
-HFN = [list, sorted, lambda xs: list(reversed(xs)), lambda xs: xs[1:], lambda xs: [sum(xs)]]
-OP = [lambda a, b: a + b, max, lambda a, b: a - b, lambda a, b: b]
-NLIB = {MAP: len(FN), FILTER: len(PRED), FLATMAP: len(GFN), SAMPLE: len(MFN), EAGER: len(HFN)}
+# ---- element domain: ints and the falsy / sentinel-like "specials", written as codes -------------------------------
+NONE, STR, FALSE, TUP, LST = 100001, 100002, 100003, 100004, 100005
+SPECIALS = [NONE, STR, FALSE, TUP, LST]
+UNTAGGABLE = (NONE, FALSE)
+
+
+def sp(c):
+    return c > 100000
 
 
 class E(int):
@@ -74,32 +89,122 @@ class E(int):
         return o
 
 
+class EStr(str):
+    pass
+
+
+class ETup(tuple):
+    pass
+
+
+class EList(list):
+    pass
+
+
+def raw(c):
+    """code -> plain Python object (source data)"""
+    return {NONE: None, STR: '', FALSE: False, TUP: (), LST: []}[c] if sp(c) else c
+
+
+def obj(c, pid):
+    """code -> tagged Python object"""
+    if c == NONE:
+        return None
+    if c == FALSE:
+        return False
+    if c == STR:
+        o = EStr('')
+    elif c == TUP:
+        o = ETup(())
+    elif c == LST:
+        o = EList([])
+    else:
+        return E(c, pid)
+    o.pid = pid
+    return o
+
+
+def enc(x):
+    """Python object -> code"""
+    if x is None:
+        return NONE
+    if x is False:
+        return FALSE
+    if isinstance(x, str):
+        return STR
+    if isinstance(x, tuple):
+        return TUP
+    if isinstance(x, list):
+        return LST
+    return int(x)
+
+
+# ---- function library on codes (the Gallina twins are in coq/Run/C06_run.v) -------------------------------------
+def lift(f):
+    return lambda x: x if sp(x) else f(x)
+
+
+FN = [lift(lambda x: x + 1), lift(lambda x: 2 * x), lift(lambda x: -x), lift(lambda x: x % 7), lambda x: 0,
+      lift(lambda x: NONE if x == 0 else x),          # 5: None for the value 0 (d.get with a missing key)
+      lambda x: NONE,                                  # 6: a function without return value
+      lift(lambda x: FALSE if x % 2 == 0 else x),      # 7
+      lambda x: STR,                                   # 8
+      lift(lambda x: SPECIALS[x % 5]),                 # 9: every special
+      lift(lambda x: 0 if x % 2 == 1 else x)]          # 10: falsy int
+PRED = [lambda x: sp(x) or x % 2 == 0, lambda x: sp(x) or x > 0, lambda x: True, lambda x: False,
+        lambda x: sp(x) or x % 5 < 3, sp, lambda x: not sp(x)]
+GFN = [lambda x: [x, x], lambda x: [x] if sp(x) else list(range(x % 4)), lambda x: [], lambda x: [x],
+       lambda x: [x] if sp(x) else [x, x + 1],
+       lambda x: [NONE, x],                                         # 5
+       lambda x: [x] if sp(x) else ([NONE] if x % 2 == 0 else [x]),  # 6
+       lambda x: [NONE, NONE],                                      # 7
+       lambda x: [x, FALSE, STR]]                                   # 8
+MFN = [lambda x: 0, lambda x: 1, lambda x: 1 if sp(x) else x % 3, lambda x: 1 if sp(x) or x % 2 == 0 else 0, lambda x: 2]
+HFN = [list, sorted, lambda xs: list(reversed(xs)), lambda xs: xs[1:], lambda xs: [sum(xs)]]
+
+
+def lift2(f):
+    return lambda a, b: b if sp(a) or sp(b) else f(a, b)
+
+
+OP = [lift2(lambda a, b: a + b), lift2(max), lift2(lambda a, b: a - b), lambda a, b: b]
+NLIB = {MAP: len(FN), FILTER: len(PRED), FLATMAP: len(GFN), SAMPLE: len(MFN), EAGER: len(HFN)}
+
+
 class Rec:
     def __init__(self):
         self.log = []
         self.cnt = {}
+        self.cur = -1      # partition of the tagged element (or partition index) seen last
 
     def rec(self, stage, pid, value):
         k = self.cnt.get((stage, pid), 0)
         self.cnt[(stage, pid)] = k + 1
-        self.log.append((stage, pid, k, int(value)))
+        self.log.append((stage, pid, k, enc(value)))
 
-
-def _pid(x):
-    return getattr(x, 'pid', -1)
+    def pid(self, x):
+        """partition of an element: its tag; None / False carry no tag and belong to the partition being read;
+        anything else (a plain int: a partial result) has none"""
+        if hasattr(x, 'pid'):
+            self.cur = x.pid
+            return x.pid
+        if x is None or x is False:
+            return self.cur
+        return -1
 
 
 def build(R, ctx, src, stages):
     """Define the lineage with the real API; returns the rdd. Nothing here may call a wrapped function."""
     if src[0] == 0:
-        rdd = ctx.parallelize(list(src[1]), src[2])
+        rdd = ctx.parallelize([raw(c) for c in src[1]], src[2])
     else:
-        rdd = rdd_mod.RDD([Partition(list(p), i) for i, p in enumerate(src[1])], ctx)
+        rdd = rdd_mod.RDD([Partition([raw(c) for c in p], i) for i, p in enumerate(src[1])], ctx)
 
     def tagger(i, it):
         for v in it:
+            R.cur = i
             R.rec(0, i, v)
-            yield E(v, i)
+            yield obj(enc(v), i)
     rdd = rdd.mapPartitionsWithIndex(tagger)
     seen = [len(R.log)]
     for s, (k, c, flag) in enumerate(stages, 1):
@@ -113,30 +218,33 @@ def define_stage(R, rdd, s, k, c, flag):
         f = FN[c]
 
         def w(x):
-            R.rec(s, _pid(x), x)
-            return E(f(int(x)), x.pid)
+            pid = R.pid(x)
+            R.rec(s, pid, x)
+            return obj(f(enc(x)), pid)
         return rdd.map(w)
     if k == FILTER:
         f = PRED[c]
 
         def w(x):
-            R.rec(s, _pid(x), x)
-            return f(int(x))
+            R.rec(s, R.pid(x), x)
+            r = f(enc(x))
+            return (1 if r else None) if flag else r      # flag: a predicate that answers truthy / falsy, not bool
         return rdd.filter(w)
     if k == FLATMAP:
         f = GFN[c]
 
         def w(x):
-            R.rec(s, _pid(x), x)
-            out = [E(v, x.pid) for v in f(int(x))]
+            pid = R.pid(x)
+            R.rec(s, pid, x)
+            out = [obj(v, pid) for v in f(enc(x))]
             return iter(out) if flag else out
         return rdd.flatMap(w)
     if k == SAMPLE:
         f = MFN[c]
 
         def w(x, rng=None, numpy_rng=None):
-            R.rec(s, _pid(x), x)
-            return f(int(x))
+            R.rec(s, R.pid(x), x)
+            return f(enc(x))
         saved = {}
         for name in ('BernoulliSampler', 'PoissonSampler'):
             if hasattr(rdd_mod, name):
@@ -158,20 +266,22 @@ def define_stage(R, rdd, s, k, c, flag):
         h = HFN[c]
         if flag:
             def w(i, it):
+                R.cur = i
                 R.rec(s, i, 0)
-                return [E(v, i) for v in h([int(x) for x in it])]
+                return [obj(v, i) for v in h([enc(x) for x in it])]
             return rdd.mapPartitionsWithIndex(w)
 
         def w(it):
             R.rec(s, -1, 0)
             xs = list(it)
-            pid = xs[0].pid if xs else -1
-            return [E(v, pid) for v in h([int(x) for x in xs])]
+            pid = R.pid(xs[0]) if xs else -1
+            return [obj(v, pid) for v in h([enc(x) for x in xs])]
         return rdd.mapPartitions(w)
     if k == GENSUM:
         def w(i, it):
+            R.cur = i
             R.rec(s, i, 0)
-            yield E(sum(int(x) for x in it), i)
+            yield obj(sum(enc(x) for x in it), i)
         return rdd.mapPartitionsWithIndex(w)
     raise ValueError(k)
 
@@ -179,7 +289,7 @@ def define_stage(R, rdd, s, k, c, flag):
 def run_action(R, rdd, sa, action):
     a, a1, a2, a3 = action
     if a == A_COLLECT:
-        return [int(x) for x in rdd.collect()]
+        return [enc(x) for x in rdd.collect()]
     if a == A_COUNT:
         return int(rdd.count())
     if a == A_SUM:
@@ -188,30 +298,30 @@ def run_action(R, rdd, sa, action):
         op = OP[a1]
 
         def w(x, y):
-            R.rec(sa, _pid(y), y)
-            return int(op(int(x), int(y)))
-        return int(rdd.reduce(w))
+            R.rec(sa, R.pid(y), y)
+            return int(op(enc(x), enc(y)))       # always a plain int (the code of the result)
+        return enc(rdd.reduce(w))
     if a == A_FOLD:
         op = OP[a2]
 
         def w(x, y):
-            R.rec(sa, _pid(y), y)
-            return int(op(int(x), int(y)))
-        return int(rdd.fold(a1, w))
+            R.rec(sa, R.pid(y), y)
+            return int(op(enc(x), enc(y)))
+        return enc(rdd.fold(a1, w))
     if a == A_AGGREGATE:
         seq, comb = OP[a2], OP[a3]
 
         def ws(x, y):
-            R.rec(sa, _pid(y), y)
-            return int(seq(int(x), int(y)))
+            R.rec(sa, R.pid(y), y)
+            return int(seq(enc(x), enc(y)))
 
         def wc(x, y):
-            R.rec(sa + 1, _pid(y), y)
-            return int(comb(int(x), int(y)))
-        return int(rdd.aggregate(a1, ws, wc))
+            R.rec(sa + 1, R.pid(y), y)
+            return int(comb(enc(x), enc(y)))
+        return enc(rdd.aggregate(a1, ws, wc))
     if a == A_FOREACH:
         def w(x):
-            R.rec(sa, _pid(x), x)
+            R.rec(sa, R.pid(x), x)
         return rdd.foreach(w)
     if a == A_COUNTBYVALUE:
         d = rdd.countByValue()
@@ -238,9 +348,9 @@ def run_action(R, rdd, sa, action):
         finally:
             shutil.rmtree(d, ignore_errors=True)
     if a == A_TAKE:
-        return [int(x) for x in rdd.take(a1)]
+        return [enc(x) for x in rdd.take(a1)]
     if a == A_FIRST:
-        return int(rdd.first())
+        return enc(rdd.first())
     if a == A_ISEMPTY:
         return bool(rdd.isEmpty())
     raise ValueError(a)
@@ -248,7 +358,8 @@ def run_action(R, rdd, sa, action):
 
 def partitioning(src):
     if src[0] == 0:
-        return [[int(x) for x in p] for p in pysparkling.Context().parallelize(list(src[1]), src[2]).glom().collect()]
+        return [[enc(x) for x in p]
+                for p in pysparkling.Context().parallelize([raw(c) for c in src[1]], src[2]).glom().collect()]
     return [list(p) for p in src[1]]
 
 
@@ -389,21 +500,39 @@ def kind(case):
 
 # ---- generators -------------------------------------------------------------------------------------------
 REPR = [(MAP, 0, 0), (FILTER, 0, 0), (FLATMAP, 1, 0), (SAMPLE, 2, 0), (PERSIST, 0, 0), (EAGER, 2, 1), (GENSUM, 0, 0),
-        (FILTER, 3, 0)]
+        (FILTER, 3, 0), (MAP, 5, 0)]
+# stages that produce / pass / drop None and the other falsy values
+SENTINEL_STAGES = [(MAP, 5, 0), (MAP, 6, 0), (MAP, 7, 0), (MAP, 8, 0), (MAP, 9, 0), (MAP, 10, 0), (MAP, 4, 0),
+                   (FLATMAP, 5, 0), (FLATMAP, 6, 0), (FLATMAP, 7, 1), (FLATMAP, 8, 0),
+                   (FILTER, 5, 0), (FILTER, 5, 1), (FILTER, 6, 1), (FILTER, 2, 1)]
+# where the special lands: head of the first partition, a whole partition, heads of all partitions, everything, data
+SENTINEL_SOURCES = [(0, [0, 1, 2, 3, 4, 5], 3), (0, [0, 0, 1, 2], 2), (1, [[0, 0], [1, 2], [0]], 0),
+                    (1, [[1], [0, 0], [2, 3]], 0), (1, [[0], [0], [0, 5]], 0), (1, [[], [0], [], [4]], 0),
+                    (0, [0, 0, 0, 0], 2), (0, [NONE, 1, NONE, 2], 2), (1, [[NONE], [FALSE, STR], [TUP, LST, 3]], 0),
+                    (1, [[NONE, NONE], [NONE]], 0), (0, [2, 0, 4, 0, 6, 1], 3)]
 
 
 def rand_stage(rng):
-    k = rng.choice([MAP, MAP, FILTER, FILTER, FLATMAP, FLATMAP, SAMPLE, PERSIST, EAGER, GENSUM, CACHE])
+    k = rng.choice([MAP, MAP, MAP, FILTER, FILTER, FLATMAP, FLATMAP, SAMPLE, PERSIST, EAGER, GENSUM, CACHE])
     c = rng.randrange(NLIB[k]) if k in NLIB else 0
-    flag = rng.randrange(2) if k in (FLATMAP, SAMPLE, EAGER) else 0
+    flag = rng.randrange(2) if k in (FLATMAP, SAMPLE, EAGER, FILTER) else 0
     if k == EAGER and c == 4:
         flag = 1    # [sum(xs)] of an empty partition has no element to take the partition tag from
     return (k, c, flag)
 
 
+def rand_value(rng):
+    r = rng.random()
+    if r < 0.12:
+        return rng.choice(SPECIALS)
+    if r < 0.3:
+        return 0
+    return rng.randint(-3, 9)
+
+
 def rand_src(rng, maxlen=8):
     L = rng.choice([0, 1, 2, 3, 4, 5, 6, maxlen])
-    xs = [rng.randint(-3, 9) for _ in range(L)]
+    xs = [rand_value(rng) for _ in range(L)]
     if rng.random() < 0.6:
         return (0, xs, rng.choice([1, 2, 2, 3, 3, 4, 5, 6, L + 2]))
     parts, i = [], 0
@@ -414,15 +543,34 @@ def rand_src(rng, maxlen=8):
     return (1, parts, 0)
 
 
+def src_parts(src):
+    return [list(p) for p in src[1]] if src[0] == 1 else _par(src[1], src[2])
+
+
+def fix_stages(src, stages):
+    """sum-like partition functions are only defined on ints: replace them where a special reaches them"""
+    stages = list(stages)
+    for _ in range(len(stages) + 1):
+        inputs = stage_inputs(src_parts(src), stages)
+        for s, (k, c, _f) in enumerate(stages, 1):
+            if (k == GENSUM or (k == EAGER and c == 4)) and any(sp(x) for xs in inputs[s] for x in xs):
+                stages[s - 1] = (EAGER, 0, 1)
+                break
+        else:
+            return stages
+    return stages
+
+
+def out_values(src, stages):
+    return [x for xs in stage_inputs(src_parts(src), stages)[-1] for x in xs]
+
+
 def out_len(src, stages):
-    parts = [list(p) for p in src[1]] if src[0] == 1 else None
-    if parts is None:
-        parts = _par(src[1], src[2])
-    return sum(len(xs) for xs in stage_inputs(parts, stages)[-1])
+    return len(out_values(src, stages))
 
 
 def _par(xs, n):
-    # only used to choose how many take(n) cases to generate (never to judge)
+    # only used to choose which cases to generate (never to judge)
     if n is None or n <= 1:
         return [list(xs)]
     L, out, i = len(xs), [], 0
@@ -434,17 +582,21 @@ def _par(xs, n):
 
 
 def actions_for(rng, src, stages, all_single=True, all_take=True):
-    acts = []
-    singles = [(A_COLLECT, 0, 0, 0), (A_COUNT, 0, 0, 0), (A_SUM, 0, 0, 0), (A_REDUCE, rng.randrange(len(OP)), 0, 0),
+    outs = out_values(src, stages)
+    special = any(sp(x) for x in outs)
+    untaggable = any(x in UNTAGGABLE for x in outs)
+    singles = [(A_COLLECT, 0, 0, 0), (A_COUNT, 0, 0, 0),
                (A_FOLD, rng.choice([0, 1, -2]), rng.randrange(len(OP)), 0),
                (A_AGGREGATE, rng.choice([0, 3]), rng.randrange(len(OP)), rng.randrange(len(OP))),
-               (A_FOREACH, 0, 0, 0), (A_COUNTBYVALUE, 0, 0, 0), (A_STATS, 0, 0, 0)]
-    if all_single:
-        acts.extend(singles)
-    else:
-        acts.extend(rng.sample(singles, 2))
-    n_out = out_len(src, stages)
-    ns = list(range(0, n_out + 2))
+               (A_FOREACH, 0, 0, 0)]
+    if not untaggable:
+        # reduce hands a one-element partition's element to the combine step: an untagged None could not be attributed
+        singles.append((A_REDUCE, rng.randrange(len(OP)), 0, 0))
+    if not special:
+        # numeric / hashable / printable-as-int outputs only
+        singles.extend([(A_SUM, 0, 0, 0), (A_COUNTBYVALUE, 0, 0, 0), (A_STATS, 0, 0, 0)])
+    acts = list(singles) if all_single else rng.sample(singles, 2)
+    ns = list(range(0, len(outs) + 2))
     if not all_take and len(ns) > 3:
         ns = sorted(rng.sample(ns, 3))
     acts.extend((A_TAKE, n, 0, 0) for n in ns)
@@ -464,16 +616,34 @@ def generate(rng, tier):
     cases.append(((0, [1, 2], 20), [], (A_FIRST, 0, 0, 0)))
     cases.append(((0, [], 10), [], (A_REDUCE, 0, 0, 0)))
     cases.append(((0, [0], 10), [], (A_REDUCE, 0, 0, 0)))
+    # None / falsy / sentinel-like values at chosen positions (head of a partition, whole partition, everything, in the
+    # data), produced by map, yielded by flatMap, kept or dropped by filter (incl. truthy/falsy predicates), alone and
+    # with a stage before / after; every tolerant single-pass action, take(n) for every n, first(), isEmpty()
+    sent = []
+    for src in SENTINEL_SOURCES:
+        for st in SENTINEL_STAGES:
+            pipes = [[st], [st, (MAP, 0, 0)], [(FILTER, 2, 0), st], [st, (PERSIST, 0, 0)], [st, (FILTER, 5, 1)]]
+            for pipe in pipes:
+                pipe = fix_stages(src, pipe)
+                if out_len(src, pipe) > 40:
+                    continue
+                for act in actions_for(rng, src, pipe):
+                    sent.append((src, pipe, act))
+    if quick:
+        keep = [c for c in sent if c[2][0] in (A_ISEMPTY, A_FIRST) and len(c[1]) == 1]
+        sent = keep + rng.sample(sent, 900)
+    cases.extend(sent)
     # exhaustive small scope: length <= 4, <= 3 slices, depth <= 2 over one representative per stage kind
     pipes = [[]] + [[a] for a in REPR] + [[a, b] for a in REPR for b in REPR]
     small = []
     for L in range(0, 5):
-        xs = [3, -1, 4, 2][:L]
+        xs = [0, -1, 4, 2][:L]
         for n in (1, 2, 3):
             if L == 0 and n > 1:
                 continue
             for st in pipes:
                 src = (0, xs, n)
+                st = fix_stages(src, st)
                 for act in actions_for(rng, src, st):
                     small.append((src, list(st), act))
     if quick:
@@ -483,24 +653,28 @@ def generate(rng, tier):
         for a in REPR:
             for b in REPR:
                 for c in REPR:
-                    for xs, n in (([3, -1, 4], 2), ([3, -1, 4, 2], 3)):
+                    for xs, n in (([0, -1, 4], 2), ([3, 0, 4, 2], 3)):
                         src = (0, xs, n)
-                        st = [a, b, c]
+                        st = fix_stages(src, [a, b, c])
                         if out_len(src, st) > 40:
                             continue
                         for act in actions_for(rng, src, st, all_single=False):
                             small.append((src, st, act))
     cases.extend(small)
     # saveAsTextFile (touches the file system: fewer)
-    for _ in range(25 if quick else 300):
+    n_save = 25 if quick else 300
+    while n_save > 0:
         src = rand_src(rng, 6)
-        st = [rand_stage(rng) for _ in range(rng.randint(0, 3))]
+        st = fix_stages(src, [rand_stage(rng) for _ in range(rng.randint(0, 3))])
+        if any(sp(x) for x in out_values(src, st)):
+            continue
         cases.append((src, st, (A_SAVE, 0, 0, 0)))
+        n_save -= 1
     # random deeper pipelines, irregular partitionings, all take(n)
-    budget = 1600 if quick else 40000
+    budget = 1600 if quick else 36000
     while budget > 0:
         src = rand_src(rng)
-        st = [rand_stage(rng) for _ in range(rng.choice([1, 2, 2, 3, 3, 4]))]
+        st = fix_stages(src, [rand_stage(rng) for _ in range(rng.choice([1, 2, 2, 3, 3, 4]))])
         if out_len(src, st) > 40:
             continue
         acts = actions_for(rng, src, st, all_single=rng.random() < 0.3, all_take=rng.random() < 0.5)
